@@ -230,7 +230,10 @@ class Canon:
                 if self.defer_zero:
                     self.pending.extend(p for p in pairs if p[0] not in self.idx)
                     return (tn, tuple(o.ufl_shape), "deferred")
-                return (tn, tuple(o.ufl_shape), tuple(sorted((self.idx.get(c, ("?", c)), d) for c, d in pairs)))
+                for c, d in sorted(pairs, key=lambda t: (t[1], t[0])):
+                    if c not in self.idx:  # no first pass was run (direct use of the class)
+                        self.idx[c] = len(self.idx)
+                return (tn, tuple(o.ufl_shape), tuple(sorted((self.idx[c], d) for c, d in pairs)))
             return (tn, tuple(o.ufl_shape), self.fi(o.ufl_free_indices), tuple(o.ufl_index_dimensions))
         if tn in ("Identity", "PermutationSymbol"):
             return (tn, tuple(o.ufl_shape))
